@@ -56,6 +56,10 @@ Leave(r) == [r EXCEPT !.cut = FALSE]                        \* leaving a cut sco
 WithDefaults(ns, e) == DefineAll(DefineAll(ns, DefsL(e), OpenL(<<>>)), Defs(e) \ DefsL(e), None)
 
 RuleOk(p, val) == [k |-> "ok", p |-> p, val |-> val]
+\* C12: with parse information on, a dict-like rule value carries (rule, start after leading whitespace, end) of every rule
+\* that returned it (a rule whose value is another rule's dict returns the same AST)
+WithInfo(v, name, q, e) == IF v.t = "d" /\ "parseinfo" \in DOMAIN Cfg /\ Cfg.parseinfo
+                           THEN [v EXCEPT !.pi = Append(@, [rule |-> name, pos |-> q, end |-> e])] ELSE v
 
 \* ---------------------------------------------------------------- semantic actions (C06): a finite family
 FlatHasB(v) == \/ (v.t = "s" /\ v.v = <<"b">>)
@@ -206,7 +210,7 @@ Body(name, q, sd, d) ==
                   ELSE CstFinal(Pack(r.items)) IN
        IF rule.isname /\ IsKeyword(val) THEN F                      \* C11: an ordinary failure, before the action
        ELSE LET a == Act(name, val) IN
-            IF a.k = "ok" THEN RuleOk(r.p, a.v)
+            IF a.k = "ok" THEN RuleOk(r.p, WithInfo(a.v, name, q, r.p))
             ELSE IF a.k = "failsem" THEN F
             ELSE Raise(name)
 
